@@ -146,19 +146,27 @@ func RegisterExtension(ctx context.Context, key string, value any) {
 
 // GetExtensions returns any extensions registered in the current result context
 func GetExtensions(ctx context.Context) map[string]any {
-	ext := getResponseContext(ctx).extensions
-	if ext == nil {
-		return map[string]any{}
+	c := getResponseContext(ctx)
+	c.extensionsMu.Lock()
+	defer c.extensionsMu.Unlock()
+
+	// return a copy: resolvers running concurrently may still be registering extensions
+	ext := make(map[string]any, len(c.extensions))
+	for k, v := range c.extensions {
+		ext[k] = v
 	}
 
 	return ext
 }
 
 func GetExtension(ctx context.Context, name string) any {
-	ext := getResponseContext(ctx).extensions
-	if ext == nil {
+	c := getResponseContext(ctx)
+	c.extensionsMu.Lock()
+	defer c.extensionsMu.Unlock()
+
+	if c.extensions == nil {
 		return nil
 	}
 
-	return ext[name]
+	return c.extensions[name]
 }
